@@ -267,8 +267,12 @@ def check(spec, tier, seed, replay=None):
             if spec.get("site_inventory"):
                 # structural tie: the syntactic panic sites of the modelled sources are the committed inventory
                 rc_i, out_i = C.run([sys.executable, os.path.join(C.ROOT, "tools", "site_inventory.py")])
+                diffs = [l for l in out_i.splitlines() if l.split(" ", 1)[0] in ("ADDED", "REMOVED", "CHANGED")]
+                if rc_i == 0 and diffs:
+                    # only removed sites: the model keeps a panic site the code no longer has; not an alarm
+                    C.log("[%s] note: %d panic site(s) of site_inventory.json no longer in the source: %s" % (pid, len(diffs), "; ".join(diffs[:4])))
+                    summ.setdefault("notes", []).append("removed panic sites: " + "; ".join(diffs[:8]))
                 if rc_i != 0:
-                    diffs = [l for l in out_i.splitlines() if l.split(" ", 1)[0] in ("ADDED", "REMOVED", "CHANGED")]
                     broken.append("structure: the panic sites of the modelled sources differ from site_inventory.json (%d differences): %s"
                                   % (len(diffs), "; ".join(diffs[:6])))
             for cid in spec.get("components", []):
